@@ -1,8 +1,9 @@
 /-
   SETTINGS lists with repeated identifiers (RFC 7540 §6.5.3: the values are processed in the order
-  in which they appear): the settings-controlled fields of a direction after `applySettings` are the
-  LAST values of their identifiers; applying the list or its "last occurrence" dedup makes no
-  difference to them.  Core-only.
+  in which they appear): the settings-controlled fields of a direction after `applySettings` (the
+  code: the values in force, `inForce`), after `applyEach` over the whole list (value by value: the
+  loop the code had before the repair of F51) and after `applyEach` over the "last occurrence"
+  dedup (`lastOcc`) are the same: the LAST values of their identifiers.  Core-only.
 -/
 import FwdVerif.Lemmas.H2Flow
 
@@ -45,12 +46,14 @@ def applySettingsFirst (o : Dir α) (ord : Nat → List Nat) (kvs : List (Nat ×
   | some v => o2.setInitWin (ord 0) v
   | none => (o2, [])
 
-/-- the fix pattern for F51: the frame's FINAL values are collected first — every identifier once,
-    with the value of its last occurrence (`lastOcc`) — and only then are the direction and its
-    queues touched: one `updateInitialWindowSize`, hence one scan of the queues, per frame, under the
-    value that is in force once the frame is processed (RFC 7540 §6.5.3) -/
+/-- the pattern the repair of F51 follows, in its plainest form: the frame's FINAL values are
+    collected first — every identifier once, with the value of its last occurrence (`lastOcc`) — and
+    only then are the direction and its queues touched: one `updateInitialWindowSize`, hence one scan
+    of the queues, per frame, under the value that is in force once the frame is processed (RFC 7540
+    §6.5.3).  The code (`applySettings`, `inForce`) dedups SETTINGS_INITIAL_WINDOW_SIZE and
+    SETTINGS_MAX_FRAME_SIZE only; it keeps every SETTINGS_HEADER_TABLE_SIZE value for HPACK. -/
 def applySettingsLastOnly (o : Dir α) (ord : Nat → List Nat) (kvs : List (Nat × Nat)) : Dir α × List (QFrame α) :=
-  applySettings o ord 0 (lastOcc kvs)
+  applyEach o ord 0 (lastOcc kvs)
 
 /-- the fields a SETTINGS frame controls -/
 def SameCfg (d d' : Dir α) : Prop :=
@@ -83,15 +86,15 @@ theorem setInitWin_cfg (d : Dir α) (order : List Nat) (v : Nat) :
 
 /-- **in order**: after the `ForeachSetting` loop every settings-controlled field holds the value
     of the LAST occurrence of its identifier (or what it held before) -/
-theorem applySettings_cfg (o : Dir α) (ord : Nat → List Nat) (k : Nat) (kvs : List (Nat × Nat)) :
-    (applySettings o ord k kvs).1.initWin = lastOfInt settingInitialWindowSize o.initWin kvs ∧
-    (applySettings o ord k kvs).1.maxFrame = lastOf settingMaxFrameSize o.maxFrame kvs ∧
-    (applySettings o ord k kvs).1.tableSize = lastOf settingHeaderTableSize o.tableSize kvs := by
+theorem applyEach_cfg (o : Dir α) (ord : Nat → List Nat) (k : Nat) (kvs : List (Nat × Nat)) :
+    (applyEach o ord k kvs).1.initWin = lastOfInt settingInitialWindowSize o.initWin kvs ∧
+    (applyEach o ord k kvs).1.maxFrame = lastOf settingMaxFrameSize o.maxFrame kvs ∧
+    (applyEach o ord k kvs).1.tableSize = lastOf settingHeaderTableSize o.tableSize kvs := by
   induction kvs generalizing o k with
   | nil => exact ⟨rfl, rfl, rfl⟩
   | cons kv rest ih =>
     obtain ⟨id, v⟩ := kv
-    simp only [H2.applySettings, lastOf, lastOfInt]
+    simp only [H2.applyEach, lastOf, lastOfInt]
     split
     · rename_i hid
       have hc := setInitWin_cfg o (ord k) v
@@ -227,6 +230,76 @@ theorem lastOcc_nodup (kvs : List (Nat × Nat)) : ((lastOcc kvs).map (·.1)).Nod
       obtain ⟨kv, hkv, hi⟩ := List.mem_map.mp hmem
       apply hany
       exact List.any_eq_true.mpr ⟨kv, mem_lastOcc rest kv hkv, by simp [hi]⟩
+
+/-! ### `inForce`: the entries `relay.applySettings` acts on -/
+
+/-- skipping the superseded values puts the same values in force -/
+theorem lastOf_inForce (id : Nat) (d : Nat) (kvs : List (Nat × Nat)) : lastOf id d (inForce kvs) = lastOf id d kvs := by
+  induction kvs generalizing d with
+  | nil => rfl
+  | cons kv rest ih =>
+    obtain ⟨i, v⟩ := kv
+    simp only [inForce]
+    split
+    · rename_i hc
+      rw [ih]
+      simp only [lastOf]
+      by_cases hi : i = id
+      · subst hi; exact lastOf_indep i _ _ rest hc.2
+      · simp [hi]
+    · simp only [lastOf]; exact ih _
+
+theorem lastOfInt_inForce (id : Nat) (d : Int) (kvs : List (Nat × Nat)) :
+    lastOfInt id d (inForce kvs) = lastOfInt id d kvs := by
+  induction kvs generalizing d with
+  | nil => rfl
+  | cons kv rest ih =>
+    obtain ⟨i, v⟩ := kv
+    simp only [inForce]
+    split
+    · rename_i hc
+      rw [ih]
+      simp only [lastOfInt]
+      by_cases hi : i = id
+      · subst hi; exact lastOfInt_indep i _ _ rest hc.2
+      · simp [hi]
+    · simp only [lastOfInt]; exact ih _
+
+/-- a frame that names no identifier twice is applied entry by entry, as it is -/
+theorem inForce_of_nodup (kvs : List (Nat × Nat)) (h : (kvs.map (·.1)).Nodup) : inForce kvs = kvs := by
+  induction kvs with
+  | nil => rfl
+  | cons kv rest ih =>
+    obtain ⟨i, v⟩ := kv
+    simp only [List.map_cons, List.nodup_cons] at h
+    have hany : ¬ rest.any (fun kv => kv.1 == i) = true := by
+      intro ht
+      obtain ⟨kv, hkv, hi⟩ := List.any_eq_true.mp ht
+      exact h.1 (List.mem_map.mpr ⟨kv, hkv, by simpa using hi⟩)
+    simp [inForce, hany, ih h.2]
+
+theorem mem_inForce (kvs : List (Nat × Nat)) : ∀ kv ∈ inForce kvs, kv ∈ kvs := by
+  induction kvs with
+  | nil => intro kv h; simp [inForce] at h
+  | cons x rest ih =>
+    obtain ⟨i, v⟩ := x
+    intro kv h
+    simp only [inForce] at h
+    split at h
+    · exact List.mem_cons_of_mem _ (ih kv h)
+    · rcases List.mem_cons.mp h with h | h
+      · rw [h]; exact List.mem_cons_self
+      · exact List.mem_cons_of_mem _ (ih kv h)
+
+/-- **the code**: after `relay.applySettings` every settings-controlled field holds the value of the
+    LAST occurrence of its identifier in the frame (or what it held before) -/
+theorem applySettings_cfg (o : Dir α) (ord : Nat → List Nat) (kvs : List (Nat × Nat)) :
+    (applySettings o ord kvs).1.initWin = lastOfInt settingInitialWindowSize o.initWin kvs ∧
+    (applySettings o ord kvs).1.maxFrame = lastOf settingMaxFrameSize o.maxFrame kvs ∧
+    (applySettings o ord kvs).1.tableSize = lastOf settingHeaderTableSize o.tableSize kvs := by
+  have h := applyEach_cfg o ord 0 (inForce kvs)
+  rw [lastOfInt_inForce, lastOf_inForce, lastOf_inForce] at h
+  exact h
 
 end H2
 end FwdVerif
